@@ -96,7 +96,7 @@ func RunTape(t *testing.T, p Prop, tape *sim.Tape) (res *Result) {
 			}()
 			p.Run(t, s, res)
 		}()
-		res.Violations = s.Violations
+		res.Violations = append(s.Violations, s.Noted...)
 		if res.Trouble == "" {
 			res.Trouble = s.Trouble
 		}
